@@ -535,6 +535,74 @@ func runRound(e *hk.Env, seed uint64, n int, rnd *hk.Rng) {
 		probe(pa)
 		e.Count(fmt.Sprintf("post_quiescence_repeated_lookup_across_%d_updates", nUpd), 1)
 	}
+	// up - down - up on the quiescent filter (every fourth round): remove down to 129 / 128 / 127 / few ranges,
+	// remove a few more that are still there, add more than 256 OTHER ranges, look up everything removed
+	if n%4 == 1 {
+		presentNow := map[*rng]bool{}
+		for w := range rd.writers {
+			for k := range rd.writers[w] {
+				if o := &rd.writers[w][k]; o.r != nil && o.res == 0 {
+					presentNow[o.r] = o.add
+				}
+			}
+		}
+		live := 0
+		for _, p := range presentNow {
+			if p {
+				live++
+			}
+		}
+		seenStable := map[[2]uint32]bool{}
+		var stable []*rng
+		for _, r := range rd.stable {
+			k := [2]uint32{r.first(), uint32(r.ones)}
+			if !seenStable[k] {
+				seenStable[k] = true
+				stable = append(stable, r)
+			}
+		}
+		live += len(stable)
+		call := func(add bool, r *rng) {
+			ip, mask := argOf(r, rnd)
+			o := wop{add: add, r: r, ip: ip, mask: mask}
+			rd.apply(&o)
+			line = append(line, o.token())
+		}
+		floor := []int{129, 128, 127, 128, 60, 5}[rnd.Intn(6)]
+		var gone []*rng
+		for len(stable) > 0 && live > floor {
+			i := rnd.Intn(len(stable))
+			r := stable[i]
+			stable[i] = stable[len(stable)-1]
+			stable = stable[:len(stable)-1]
+			call(false, r)
+			gone = append(gone, r)
+			live--
+		}
+		for q := 0; q < 1+rnd.Intn(4) && len(stable) > 0; q++ { // still present, removed in the "small" era
+			r := stable[len(stable)-1]
+			stable = stable[:len(stable)-1]
+			call(false, r)
+			gone = append(gone, r)
+			probe(u32b(r.first()))
+			live--
+		}
+		for i := 0; live < 262+rnd.Intn(8); i++ { // other ranges, across 256 / 257 again
+			call(true, &rng{ip: [4]byte{10, 253, byte(i), byte(rnd.Intn(256))}, ones: 24 + rnd.Intn(9)})
+			live++
+		}
+		for _, r := range gone {
+			a := r.first()
+			if rnd.Bool() {
+				a = r.last()
+			}
+			probe(u32b(a))
+		}
+		for _, r := range stable {
+			probe(u32b(r.first()))
+		}
+		e.Count("post_quiescence_up_down_up_rounds", 1)
+	}
 	e.Case(append([]string{tag}, line...)...)
 
 	e.Count("rounds", 1)
